@@ -34,12 +34,17 @@ def main():
             for d in sorted(glob.glob(os.path.join(ROOT, 'harmless', '*'))):
                 if not apply(os.path.join(d, 'patch.diff')): print('SKIP (patch does not apply)', os.path.basename(d)); clean(); continue
                 alarms = []
+                nfi_ok = os.path.exists(os.path.join(d, 'expect_nfi'))   # the rewrite is known to break the syntactic tie (DESIGN 0.5)
+                nfi = []
                 for pid in ALL:
                     r = sh([os.path.join(ROOT, 'check'), pid, 'quick'])
-                    if r.returncode != 0: alarms.append(pid)
+                    if r.returncode != 0:
+                        v = [l for l in r.stdout.splitlines() if l.startswith('VIOLATION')]
+                        if nfi_ok and v and all(l.rstrip().endswith('no-failing-input-found') for l in v): nfi.append(pid)
+                        else: alarms.append(pid)
                 clean()
                 if alarms: bad += 1
-                print('%-8s %-48s %s' % ('ALARM' if alarms else 'quiet', os.path.basename(d), ' '.join(alarms)), flush=True)
+                print('%-8s %-48s %s' % ('ALARM' if alarms else ('nfi-only (expected)' if nfi else 'quiet'), os.path.basename(d), ' '.join(alarms or nfi)), flush=True)
     finally:
         clean()
     print('selftest: %d unexpected result(s)' % bad)
